@@ -388,14 +388,18 @@ def chunk_never_empty(ctx, rule='C08-R2'):
     f = p.func(q, rule)
     evs = fx.deep_events(q)
     removers = []
+    seen_calls = set()
     for e in evs:
         c = None
         if e.kind == 'assign' and tag(e.value) == 'mcall':
             c = e.value
-        elif e.kind == 'mutcall':
-            c = e.call
+        elif e.kind in ('mutcall', 'call'):
+            c = e.call          # wherever the removal is written (statement, argument of a call, return value)
         if c is not None and tag(c) == 'mcall' and c[2] in ('drop', 'dropna', 'drop_duplicates', 'query', 'head', 'tail') \
                 and dict(c[4]).get('axis', C(0)) in (C(0), C('index')) and 'columns' not in dict(c[4]):
+            if T.key(c) in seen_calls:
+                continue
+            seen_calls.add(T.key(c))
             removers.append(e)
         if e.kind == 'assign' and tag(e.value) == 'mask' and tag(T.root(e.value)) in ('call', 'p', 'upd', 'mcall'):
             removers.append(e)
@@ -414,7 +418,7 @@ def chunk_never_empty(ctx, rule='C08-R2'):
     for e in removers:
         ok = any(r.seq > e.seq for r in refusals)
         c = e.value if e.kind == 'assign' else e.call
-        what = c[3][0] if tag(c) == 'mcall' and c[3] else (c[2] if tag(c) == 'mask' else None)
+        what = (c[3][0] if c[3] else dict(c[4]).get('labels', dict(c[4]).get('index'))) if tag(c) == 'mcall' else (c[2] if tag(c) == 'mask' else None)
         sel = [x for x in T.walk(what) if tag(x) == 'mask'] if what is not None else []
         cond = strip_updates(sel[0][2]) if sel else (strip_updates(what) if what is not None else None)
         if sel and cond is not None:
